@@ -291,7 +291,8 @@ class Engine:
             self.stats['discharged'] += 1
             self.site_samples.setdefault(site, {'kind': kind, 'status': 'discharged'})
         elif r == 'sat' and self.site_samples.get(site, {}).get('status') == 'violated':
-            pass   # already have a counterexample for this site
+            # already have a counterexample for this site -- unless that one ran through a guessed callee and this one does not
+            self._prefer_untainted(site, kind, detail, st, [z3.Not(okc)], m, [short_fn(f.fn.name) for f in st.frames])
         elif r == 'sat':
             m = self.small_model(st.pc, [z3.Not(okc)], m)
             self.findings.append(Finding(site, kind, detail, m, len(st.pc), [short_fn(f.fn.name) for f in st.frames],
@@ -324,6 +325,7 @@ class Engine:
                 self.site_samples[label] = {'kind': kind, 'status': 'discharged'}
             return True
         if r == 'sat' and prev == 'violated':
+            self._prefer_untainted(label, kind, '', st, [z3.Not(c)], m, [])
             return False
         if r == 'sat':
             m = self.small_model(st.pc, [z3.Not(c)], m)
@@ -335,6 +337,22 @@ class Engine:
         if prev != 'violated':
             self.site_samples[label] = {'kind': kind, 'status': 'inconclusive'}
         return None
+
+    def _prefer_untainted(self, site, kind, detail, st, extra, m, frames):
+        """a second counterexample for a site replaces the recorded one when the recorded one depends on havocked callees and
+        this one does not (the verdict policy can report only the untainted kind without a native driver)"""
+        if st.env.get('havoc', ()):
+            return
+        for i, f in enumerate(self.findings):
+            if f.site == site and getattr(f, 'havoc', ()):
+                m = self.small_model(st.pc, extra, m)
+                nf = Finding(site, kind, detail, m, len(st.pc), frames, self.extract_inputs(m, st))
+                nf.havoc = ()
+                for attr in ('target',):
+                    if hasattr(f, attr):
+                        setattr(nf, attr, getattr(f, attr))
+                self.findings[i] = nf
+                return
 
     def small_model(self, pc, extra, m):
         """prefer counterexamples with short buffers (purely cosmetic: same query + length caps)"""
